@@ -257,8 +257,8 @@ def run(ctx):
             # each section of the parameter file has its own type
             sim.mixed_params(rng, min(tr.level), max(tr.level))))
         # a finely resolved profile: tens to more than a hundred knots (parameter numbers of two and three digits)
-        many = sim.spline_params(rng, min(tr.level), max(tr.level), n_sy=([101, 10, 120, 37, 12][d_i % 5] if d_i < 5 else rng.choice([10, 12, 37, 101, 120])),
-                                 n_t=([10, 101, 25, 11, 10][d_i % 5] if d_i < 5 else rng.choice([10, 11, 25])))     # three-digit numbers for sure
+        many = sim.spline_params(rng, min(tr.level), max(tr.level), n_sy=([101, 10, 1003, 37, 12][d_i % 5] if d_i < 5 else rng.choice([10, 12, 37, 101, 120])),
+                                 n_t=([10, 1001, 25, 11, 101][d_i % 5] if d_i < 5 else rng.choice([10, 11, 25])))     # three- and four-digit numbers for sure
         # a file the tool accepts: one more level knot than values (knots and values are paired, the unpaired knot is ignored);
         # the number of parameters is the number of VALUES
         uneven = sim.spline_params(rng, min(tr.level), max(tr.level))
